@@ -148,6 +148,19 @@ def check_case(case):
         w = case['w']
         whole = np.arange(float(n))
         whole[p] = v
+        prelude = case.get('prelude')
+        if prelude:
+            # an earlier whole-series write of integer-valued (or boolean) Python objects through one of the paths:
+            # the series still takes the non-integer value written next
+            ints = list(range(n)) if 'int' in prelude else [i % 2 == 0 for i in range(n)]
+            if 'bool' in prelude:
+                whole = np.array([float(x) for x in ints])
+                whole[p] = v
+            if prelude.startswith('attr'):
+                c.X = ints if 'tuple' not in prelude else tuple(ints)
+            else:
+                c['X'] = ints if 'tuple' not in prelude else tuple(ints)
+            res.tag('prelude:' + prelude)
         if w == 'attribute':
             c.X = whole.copy()
         elif w == 'name-key':
@@ -195,8 +208,11 @@ def gen_all(max_len):
                         for op in ('get-slice', 'set-slice'):
                             yield {'span': desc, 'kind': kind, 'op': op, 'a': a, 'b': b, 's': s}
             for lab in [spans.enc_label(x) for x in labs]:
-                for w in ('attribute', 'name-key', 'position', 'label', 'label-slice'):
+                for j, w in enumerate(('attribute', 'name-key', 'position', 'label', 'label-slice')):
                     yield {'span': desc, 'kind': kind, 'op': 'paths', 'label': lab, 'w': w}
+                    if w in ('position', 'label', 'label-slice'):
+                        yield {'span': desc, 'kind': kind, 'op': 'paths', 'label': lab, 'w': w,
+                               'prelude': ['attr-int-list', 'key-int-list', 'attr-int-tuple', 'key-bool-list'][(i + j) % 4]}
     return gen
 
 
